@@ -2154,6 +2154,10 @@ class KmipEngine(object):
         # TODO (peterhamilton): Pull cryptographic parameters from the keying
         # object if none are provided with the payload
         crypto_parameters = derivation_parameters.cryptographic_parameters
+        if crypto_parameters is None:
+            # Let the cryptography engine report which parameter is missing
+            # for the requested derivation method.
+            crypto_parameters = attributes.CryptographicParameters()
         derived_data = self._cryptography_engine.derive_key(
             derivation_method=payload.derivation_method,
             derivation_length=derivation_length,
